@@ -22,6 +22,8 @@ module N :
 
   val ltb : coq_N -> coq_N -> bool
 
+  val min : coq_N -> coq_N -> coq_N
+
   val pow : coq_N -> coq_N -> coq_N
 
   val log2 : coq_N -> coq_N
